@@ -33,6 +33,7 @@ type LoopContract struct {
 	Ensures    []*Clause // "loop N ensures E": holds at the end of every iteration (at each back edge)
 	Ordered    *Clause   // "loop N ordered": must not be a range over a map
 	Over       *Clause // loop N over E: iteration domain
+	NoPanic    *Clause // loop N nopanic: a panic inside an iteration does not leave the loop
 }
 
 type Guarded struct {
@@ -267,6 +268,18 @@ func (cs *Contracts) loadFile(pkgPath, file string) error {
 						fc.Loops[n] = lc
 					}
 					lc.Ordered = &Clause{Kind: "ordered", Text: "loop " + dm[1] + " iterates in a defined order (not over a map)", Props: props, Line: l, Loop: n}
+					continue
+				}
+				if dm := regexp.MustCompile(`^(\d+)\s+nopanic\s*$`).FindStringSubmatch(rest); dm != nil {
+					// loop N nopanic: no panic raised inside an iteration leaves the loop (every element is processed
+					// even when a callback in the body panics: the body must contain its own recovery)
+					n, _ := strconv.Atoi(dm[1])
+					lc := fc.Loops[n]
+					if lc == nil {
+						lc = &LoopContract{}
+						fc.Loops[n] = lc
+					}
+					lc.NoPanic = &Clause{Kind: "loop-nopanic", Text: "no panic raised inside an iteration of loop " + dm[1] + " leaves the loop", Props: props, Line: l, Loop: n}
 					continue
 				}
 				parts := strings.SplitN(rest, " ", 3)
